@@ -11,7 +11,6 @@ import (
 	"strings"
 	"time"
 
-	"github.com/gorilla/mux"
 	"github.com/inbucket/inbucket/v3/pkg/extension"
 	"github.com/inbucket/inbucket/v3/pkg/msghub"
 	"github.com/inbucket/inbucket/v3/pkg/rest"
@@ -172,7 +171,7 @@ func runC02(c *Ctx, cs Case) {
 	hctx, hcancel := context.WithCancel(context.Background())
 	defer hcancel()
 	simrt.Go("hub.Start", func() { hub.Start(hctx) })
-	web.Router = mux.NewRouter()
+	web.Router = web.NewRouter()
 	webui.SetupRoutes(web.Router.PathPrefix("/serve/").Subrouter())
 	rest.SetupRoutes(web.Router.PathPrefix("/api/").Subrouter())
 	web.NewServer(root, env.mgr, hub)
